@@ -1,6 +1,9 @@
 package main
 
 import (
+	"strconv"
+	"strings"
+
 	"gopkg.in/typ.v4/maps"
 	"gopkg.in/typ.v4/sets"
 	"gopkg.in/typ.v4/sync2"
@@ -90,6 +93,28 @@ func (w *c03) step(t []string) string {
 		return fmtInts(sortedInts(w.get(t[1]).Slice()))
 	case "string":
 		return fmtInts(sortedInts(parseInts(reparse(w.get(t[1]).String()))))
+	case "stringx":
+		// String() of a set of STRINGS that look like list syntax: member i is rendered through `memberNames`, the set is rebuilt with the same
+		// implementation, and its String() is parsed back ("{" members separated by one space "}"); unknown tokens come back as -1
+		src := w.get(t[1])
+		var xs sets.Set[string]
+		if kindOf(src) == 1 {
+			xs = &sync2.Set[string]{}
+		} else {
+			xs = make(maps.Set[string])
+		}
+		src.Range(func(v int) bool { xs.Add(memberName(v)); return true })
+		str := xs.String()
+		if len(str) < 2 || str[0] != '{' || str[len(str)-1] != '}' {
+			return "[-2]"
+		}
+		out := []int{}
+		if body := str[1 : len(str)-1]; body != "" {
+			for _, tok := range strings.Split(body, " ") {
+				out = append(out, memberIndex(tok))
+			}
+		}
+		return fmtInts(sortedInts(out))
 	case "clone":
 		need(t, 3)
 		return w.put(atoi(t[2]), w.get(t[1]).Clone())
@@ -142,4 +167,28 @@ func (w *c03) step(t []string) string {
 		return "ok"
 	}
 	return bad()
+}
+
+// members that look like list / set syntax themselves
+var memberNames = []string{"[a]", "b]", "[c", "{d}", "e", "]", "[", "[[f]]"}
+
+func memberName(v int) string {
+	if v >= 0 && v < len(memberNames) {
+		return memberNames[v]
+	}
+	return "m" + strconv.Itoa(v)
+}
+
+func memberIndex(tok string) int {
+	for i, n := range memberNames {
+		if n == tok {
+			return i
+		}
+	}
+	if strings.HasPrefix(tok, "m") {
+		if n, err := strconv.Atoi(tok[1:]); err == nil {
+			return n
+		}
+	}
+	return -1
 }
